@@ -536,7 +536,7 @@ Lemma step_strip c w o : lazy_consistent c w ->
 Proof.
   intro L. unfold lazy_consistent in *.
   destruct w as [s f nx]. cbn [bt] in L.
-  destruct o as [n v|n v|n|n|n| |]; cbn [step strip bt fil next cfg_off c_mode c_osz c_ns].
+  destruct o as [n v|n v|n|n|n| | | |]; cbn [step strip bt fil next cfg_off c_mode c_osz c_ns].
   - (* insert *)
     unfold insert_record. cbn [strip_bt with_lazy recs node_size header].
     destruct (find_index (recs s) (jenkins n) 0); [repeat split; exact L|].
@@ -584,6 +584,17 @@ Proof.
       * cbn [bt]. apply setup_mode_lazy. unfold is_lazy_enabled. rewrite X3. reflexivity.
     + cbn [strip bt fil next strip_bt with_lazy node_size header leaf_type leaf_recs recs loaded_hdr loaded_leaf set_root].
       repeat split. exact L.
+  - (* write in place, same object *)
+    unfold write_in_place. cbn [strip bt fil next strip_bt with_lazy loaded_hdr loaded_leaf].
+    destruct (loaded_hdr s =? 0); [repeat split; exact L|].
+    cbn [strip bt fil next strip_bt with_lazy with_root loaded_hdr loaded_leaf
+         node_size header leaf_type leaf_recs recs lazy encode_leaf encode_header].
+    repeat split. exact L.
+  - (* store, same object *)
+    unfold write_to_file.
+    cbn [strip bt fil next strip_bt with_lazy with_root loaded_hdr loaded_leaf
+         node_size header leaf_type leaf_recs recs lazy encode_leaf encode_header].
+    repeat split. exact L.
 Qed.
 
 Lemma run_from_strip c ops : forall w, lazy_consistent c w ->
@@ -695,6 +706,34 @@ Qed.
 Lemma rewrite_refused c w : loaded_hdr (bt w) = 0 -> step c w ORewrite = (w, RErr).
 Proof. intro H. cbn [step]. unfold write_in_place. rewrite H. reflexivity. Qed.
 
+(* WriteAt on the same object: the object only gets header.RootNodeAddr := loadedLeafAddress *)
+Lemma writeat_ok c w : loaded_hdr (bt w) <> 0 ->
+  step c w OWriteAt =
+  (mkW (with_root (bt w) (loaded_leaf (bt w)))
+       (write_at (write_at (fil w) (loaded_leaf (bt w)) (encode_leaf (bt w))) (loaded_hdr (bt w))
+                 (encode_header (c_osz c) (with_root (bt w) (loaded_leaf (bt w)))))
+       (next w), ROk).
+Proof.
+  intro Hz. cbn [step]. unfold write_in_place.
+  replace (loaded_hdr (bt w) =? 0) with false by (symmetry; apply N.eqb_neq; exact Hz).
+  reflexivity.
+Qed.
+
+Lemma writeat_refused c w : loaded_hdr (bt w) = 0 -> step c w OWriteAt = (w, RErr).
+Proof. intro H. cbn [step]. unfold write_in_place. rewrite H. reflexivity. Qed.
+
+(* WriteToFile on the same object: header.RootNodeAddr := the fresh leaf address, loaded addresses kept *)
+Lemma store_ok c w :
+  step c w OStore =
+  (mkW (with_root (bt w) (next w))
+       (write_at (write_at (fil w) (next w) (encode_leaf (bt w))) (next w + node_size (bt w))
+                 (encode_header (c_osz c) (with_root (bt w) (next w))))
+       (next w + node_size (bt w) + N.of_nat (hdr_size (c_osz c))), ROk).
+Proof. reflexivity. Qed.
+
+Lemma with_root_wf s a : st_wf s -> st_wf (with_root s a).
+Proof. intro W. exact W. Qed.
+
 (* ---- effect of update / delete in terms of the decomposition at the first matching record ---- *)
 Lemma update_record_some s n v i : find_index (recs s) (jenkins n) 0 = Some i ->
   exists pre r post, recs s = pre ++ r :: post /\ fst r = jenkins n /\ ~ In (jenkins n) (hashes pre) /\
@@ -750,14 +789,17 @@ Lemma winv_intro c w :
   winv c w.
 Proof. intros. unfold winv. auto 10. Qed.
 
+(* the operations that take addresses from the allocator (WriteToFile, with or without reload) *)
+Definition is_store (o : op) : bool := match o with OStoreLoad | OStore => true | _ => false end.
+
 (* every operation keeps the invariant *)
 Lemma step_winv c w o : cfg_ok c -> c_mode c = MOff -> winv c w ->
-  (o = OStoreLoad -> next w < lim c) -> winv c (fst (step c w o)).
+  (is_store o = true -> next w < lim c) -> winv c (fst (step c w o)).
 Proof.
   intros Hc Hm I Hb. pose proof I as (W & Hn & Hs & Hl & Hx & Hld).
   pose proof W as (W1 & W2 & W3 & W4 & W5 & W6 & W7 & W8 & W9 & W10 & W11 & W12 & W13).
   pose proof W3 as (C1 & C2 & C3).
-  destruct o as [n v|n v|n|n|n| |].
+  destruct o as [n v|n v|n|n|n| | | |].
   - (* insert *)
     cbn [step]. unfold insert_record.
     destruct (find_index (recs (bt w)) (jenkins n) 0); [exact I|].
@@ -815,10 +857,17 @@ Proof.
     + unfold st_wf, set_root.
       cbn [header node_size recs leaf_recs leaf_type h_type h_node_size h_rec_size h_depth h_split h_merge h_nroot h_total].
       rewrite <- Hn. repeat split; assumption.
+  - (* write in place, same object *)
+    destruct (N.eq_dec (loaded_hdr (bt w)) 0) as [Z|Z]; [rewrite writeat_refused by exact Z; exact I|].
+    rewrite writeat_ok by exact Z. cbn [fst].
+    apply winv_intro; cbn [bt next with_root recs node_size lazy loaded_hdr loaded_leaf]; try assumption.
+  - (* store, same object *)
+    rewrite store_ok. cbn [fst].
+    apply winv_intro; cbn [bt next with_root recs node_size lazy loaded_hdr loaded_leaf]; try assumption.
+    unfold hsz. lia.
 Qed.
 
 (* ---- histories ---- *)
-Definition is_store (o : op) : bool := match o with OStoreLoad => true | _ => false end.
 Fixpoint count_stores (ops : list op) : nat :=
   match ops with [] => O | o :: r => ((if is_store o then 1 else 0) + count_stores r)%nat end.
 
@@ -826,10 +875,10 @@ Fixpoint count_stores (ops : list op) : nat :=
 Definition addr_ok (c : cfg) (ops : list op) : Prop :=
   64 + N.of_nat (count_stores ops) * (ns_of c + hsz c) <= lim c.
 
-Lemma step_next c w o : cfg_ok c -> c_mode c = MOff -> winv c w -> (o = OStoreLoad -> next w < lim c) ->
+Lemma step_next c w o : cfg_ok c -> c_mode c = MOff -> winv c w -> (is_store o = true -> next w < lim c) ->
   next (fst (step c w o)) = next w + (if is_store o then ns_of c + hsz c else 0).
 Proof.
-  intros Hc Hm I Hb. destruct o as [n v|n v|n|n|n| |]; cbn [is_store]; rewrite ?N.add_0_r.
+  intros Hc Hm I Hb. destruct o as [n v|n v|n|n|n| | | |]; cbn [is_store]; rewrite ?N.add_0_r.
   - cbn [step]. destruct (insert_record (bt w) n v). reflexivity.
   - cbn [step]. destruct (update_record (bt w) n v). reflexivity.
   - reflexivity.
@@ -838,6 +887,9 @@ Proof.
   - rewrite storeload_ok by (try assumption; apply Hb; reflexivity). cbn [fst next]. lia.
   - destruct (N.eq_dec (loaded_hdr (bt w)) 0) as [Z|Z]; [rewrite rewrite_refused by exact Z; reflexivity|].
     rewrite rewrite_ok by assumption. reflexivity.
+  - destruct (N.eq_dec (loaded_hdr (bt w)) 0) as [Z|Z]; [rewrite writeat_refused by exact Z; reflexivity|].
+    rewrite writeat_ok by exact Z. reflexivity.
+  - rewrite store_ok. cbn [fst next]. destruct I as (_ & Hn & _). rewrite Hn. unfold hsz. lia.
 Qed.
 
 Lemma init_winv c : cfg_ok c -> c_mode c = MOff -> winv c (init c).
@@ -857,8 +909,8 @@ Lemma run_from_winv c : cfg_ok c -> c_mode c = MOff -> forall ops w,
   winv c (fst (run_from c w ops)).
 Proof.
   intros Hc Hm. induction ops as [|o ops IH]; intros w I B; cbn [run_from]; [exact I|].
-  assert (Hb : o = OStoreLoad -> next w < lim c).
-  { intros ->. cbn [count_stores is_store] in B. unfold hsz, hdr_size in *. lia. }
+  assert (Hb : is_store o = true -> next w < lim c).
+  { intro E. cbn [count_stores] in B. rewrite E in B. unfold hsz, hdr_size in *. lia. }
   pose proof (step_winv c w o Hc Hm I Hb) as I1.
   pose proof (step_next c w o Hc Hm I Hb) as N1.
   destruct (step c w o) as [w1 r1]. cbn [fst] in *.
@@ -1007,7 +1059,7 @@ Proof.
 Qed.
 
 Lemma step_rel c U w st o :
-  cfg_ok c -> c_mode c = MOff -> winv c w -> (o = OStoreLoad -> next w < lim c) ->
+  cfg_ok c -> c_mode c = MOff -> winv c w -> (is_store o = true -> next w < lim c) ->
   inj_on U -> (forall n, In n (op_names o) -> In n U) ->
   rel U (bt w) (s_map st) -> s_loaded st = negb (loaded_hdr (bt w) =? 0) ->
   let '(w1, r1) := step c w o in
@@ -1018,7 +1070,7 @@ Proof.
   pose proof I as (W & Hn & Hs & Hl & Hx & Hld).
   pose proof W as (W1 & W2 & W3 & W4 & W5 & W6 & W7 & W8 & W9 & W10 & W11 & W12 & W13).
   destruct st as [m ld]. cbn [s_map s_loaded] in *.
-  destruct o as [n v|n v|n|n|n| |]; cbn [op_names] in HU;
+  destruct o as [n v|n v|n|n|n| | | |]; cbn [op_names] in HU;
     try (assert (HnU : In n U) by (apply HU; left; reflexivity));
     try (pose proof (R1 n HnU) as Rn; rewrite find_index_lookup in Rn).
   - (* insert *)
@@ -1111,6 +1163,18 @@ Proof.
       cbn [negb bt recs loaded_hdr s_map s_loaded].
       split; [reflexivity|]. split; [repeat split; assumption|].
       symmetry. apply negb_true_iff. apply N.eqb_neq. exact Z.
+  - (* write in place, same object *)
+    cbn [spec_step s_map s_loaded].
+    destruct (N.eq_dec (loaded_hdr (bt w)) 0) as [Z|Z].
+    + rewrite writeat_refused by exact Z. rewrite HL, Z. cbn [N.eqb negb]. repeat split; try assumption; reflexivity.
+    + rewrite writeat_ok by exact Z. rewrite HL.
+      replace (loaded_hdr (bt w) =? 0) with false by (symmetry; apply N.eqb_neq; exact Z).
+      cbn [negb bt with_root recs loaded_hdr s_map s_loaded].
+      split; [reflexivity|]. split; [repeat split; assumption|].
+      symmetry. apply negb_true_iff. apply N.eqb_neq. exact Z.
+  - (* store, same object *)
+    rewrite store_ok. cbn [spec_step s_map s_loaded bt with_root recs loaded_hdr].
+    split; [reflexivity|]. split; [repeat split; assumption|exact HL].
 Qed.
 
 Lemma run_from_rel c U : cfg_ok c -> c_mode c = MOff -> inj_on U -> forall ops w st,
@@ -1122,8 +1186,8 @@ Lemma run_from_rel c U : cfg_ok c -> c_mode c = MOff -> inj_on U -> forall ops w
 Proof.
   intros Hc Hm Hinj. induction ops as [|o ops IH]; intros w st I B HU R HL; cbn [run_from spec_run_from fst snd].
   - split; [reflexivity|exact R].
-  - assert (Hb : o = OStoreLoad -> next w < lim c).
-    { intros ->. cbn [count_stores is_store] in B. unfold hsz, hdr_size in *. lia. }
+  - assert (Hb : is_store o = true -> next w < lim c).
+    { intro E. cbn [count_stores] in B. rewrite E in B. unfold hsz, hdr_size in *. lia. }
     assert (HU1 : forall n, In n (op_names o) -> In n U).
     { intros n A. apply HU. unfold names_of. cbn [flat_map]. apply in_or_app. left. exact A. }
     assert (HU2 : forall n, In n (names_of ops) -> In n U).
@@ -1268,7 +1332,7 @@ Proof.
   specialize (IH st1 k). destruct (spec_run_from cap st1 ops) as [st2 rs]. cbn [fst] in *.
   intro H. destruct (IH H) as [A|A]; [|right; unfold names_of; cbn [flat_map]; apply in_or_app; right; exact A].
   unfold names_of. cbn [flat_map]. rewrite in_app_iff.
-  destruct o as [n v|n v|n|n|n| |]; cbn [spec_step] in E.
+  destruct o as [n v|n v|n|n|n| | | |]; cbn [spec_step] in E.
   - destruct (s_lookup n (s_map st)); [inversion E; subst; auto|].
     destruct (cap <=? _); inversion E; subst; auto. cbn [s_map map fst In] in A.
     destruct A as [<-|A]; [right; left; left; reflexivity|auto].
@@ -1278,6 +1342,8 @@ Proof.
   - destruct (s_lookup n (s_map st)); inversion E; subst; auto. cbn [s_map] in A. apply s_remove_keys_incl in A. auto.
   - inversion E; subst; auto.
   - destruct (s_loaded st); inversion E; subst; auto.
+  - destruct (s_loaded st); inversion E; subst; auto.
+  - inversion E; subst; auto.
 Qed.
 
 (* "contains exactly the live keys with their latest values" *)
@@ -1291,4 +1357,145 @@ Proof.
   split; [destruct R as (_ & R2 & _); exact R2|].
   apply (exact_content (names_of ops)); [exact Hinj|exact R|].
   intros k Hk. unfold spec_run in Hk. apply spec_keys in Hk. destruct Hk as [A|A]; [contradiction|exact A].
+Qed.
+
+(* ============================================================================================ *)
+(* 9. the image in the file after every write (WriteAt any number of times on one loaded object)  *)
+
+(* the operations after which the file holds an image of the object at its loaded header address *)
+Definition is_write (o : op) : bool :=
+  match o with OStoreLoad | ORewrite | OWriteAt => true | _ => false end.
+
+Lemma run_from_snoc c o : forall ops w,
+  run_from c w (ops ++ [o]) =
+  (fst (step c (fst (run_from c w ops)) o),
+   snd (run_from c w ops) ++ [snd (step c (fst (run_from c w ops)) o)]).
+Proof.
+  induction ops as [|x ops IH]; intro w; cbn [app run_from fst snd].
+  - destruct (step c w o) as [w1 r1]. reflexivity.
+  - destruct (step c w x) as [w1 r1]. rewrite IH.
+    destruct (run_from c w1 ops) as [w2 rs2]. reflexivity.
+Qed.
+
+Lemma count_stores_app a b : count_stores (a ++ b) = (count_stores a + count_stores b)%nat.
+Proof. induction a as [|x a IH]; cbn [app count_stores]; [reflexivity|]. rewrite IH. lia. Qed.
+
+(* invariant and allocator position after a history *)
+Lemma run_from_winv_next c : cfg_ok c -> c_mode c = MOff -> forall ops w,
+  winv c w -> next w + N.of_nat (count_stores ops) * (ns_of c + hsz c) <= lim c ->
+  winv c (fst (run_from c w ops))
+  /\ next (fst (run_from c w ops)) = next w + N.of_nat (count_stores ops) * (ns_of c + hsz c).
+Proof.
+  intros Hc Hm. induction ops as [|o ops IH]; intros w I B; cbn [run_from count_stores]; [split; [exact I|cbn; lia]|].
+  assert (Hb : is_store o = true -> next w < lim c).
+  { intro E. cbn [count_stores] in B. rewrite E in B. unfold hsz, hdr_size in *. lia. }
+  pose proof (step_winv c w o Hc Hm I Hb) as I1.
+  pose proof (step_next c w o Hc Hm I Hb) as N1.
+  destruct (step c w o) as [w1 r1]. cbn [fst] in *.
+  assert (B1 : next w1 + N.of_nat (count_stores ops) * (ns_of c + hsz c) <= lim c).
+  { rewrite N1. cbn [count_stores] in B. destruct (is_store o); lia. }
+  specialize (IH w1 I1 B1).
+  destruct (run_from c w1 ops) as [w2 rs2]. cbn [fst] in *. destruct IH as [IH1 IH2].
+  split; [exact IH1|]. rewrite IH2, N1. destruct (is_store o); lia.
+Qed.
+
+(* one step, mode off: after a successful write the file, read at the object's loaded header address,
+   decodes to the object itself (all fields; the lazy state is the receiver's) *)
+Lemma step_image_off c w o recv : cfg_ok c -> c_mode c = MOff -> winv c w ->
+  (is_store o = true -> next w < lim c) -> is_write o = true -> snd (step c w o) = ROk ->
+  load_from (c_osz c) recv (fil (fst (step c w o))) (loaded_hdr (bt (fst (step c w o))))
+  = LOk (with_lazy (bt (fst (step c w o))) (lazy recv)).
+Proof.
+  intros Hc Hm I Hb Hw Hr. pose proof I as (W & Hn & Hs & Hl & Hx & Hld).
+  pose proof W as (W1 & W2 & W3 & W4 & W5 & W6 & W7 & W8 & W9 & W10 & W11 & W12 & W13).
+  pose proof Hc as [Ho Hcap].
+  destruct o as [n v|n v|n|n|n| | | |]; try discriminate Hw.
+  - (* store + load *)
+    rewrite storeload_ok by (try assumption; apply Hb; reflexivity).
+    cbn [fst fil bt loaded_hdr]. rewrite <- Hn.
+    rewrite load_after_store; try assumption; [|apply Hb; reflexivity|lia].
+    unfold with_lazy. cbn [node_size header leaf_type leaf_recs recs loaded_hdr loaded_leaf]. reflexivity.
+  - (* rewrite + load *)
+    destruct (N.eq_dec (loaded_hdr (bt w)) 0) as [Z|Z];
+      [rewrite rewrite_refused in Hr by exact Z; discriminate Hr|].
+    destruct (Hld Z) as [D1 D2].
+    rewrite rewrite_ok by assumption.
+    cbn [fst fil bt loaded_hdr].
+    rewrite load_after_store; try assumption; [|rewrite Hn; exact D1].
+    unfold with_lazy. cbn [node_size header leaf_type leaf_recs recs loaded_hdr loaded_leaf]. rewrite Hn. reflexivity.
+  - (* write in place, same object: any number of times *)
+    destruct (N.eq_dec (loaded_hdr (bt w)) 0) as [Z|Z];
+      [rewrite writeat_refused in Hr by exact Z; discriminate Hr|].
+    destruct (Hld Z) as [D1 D2].
+    rewrite writeat_ok by exact Z.
+    cbn [fst fil bt with_root loaded_hdr].
+    rewrite load_after_store; try assumption; [|rewrite Hn; exact D1].
+    unfold with_lazy. cbn [node_size header leaf_type leaf_recs recs loaded_hdr loaded_leaf set_root].
+    unfold with_root. cbn [node_size header leaf_type leaf_recs recs loaded_hdr loaded_leaf]. rewrite W11, W12. reflexivity.
+Qed.
+
+Lemma with_lazy_strip s l : with_lazy (strip_bt s) l = with_lazy s l.
+Proof. reflexivity. Qed.
+
+(* C14_image_after_every_write: every mode, any history before the write *)
+Theorem image_after_write c ops o recv : cfg_ok c -> addr_ok c (ops ++ [o]) -> is_write o = true ->
+  last (snd (run c (ops ++ [o]))) RErr = ROk ->
+  let w := fst (run c (ops ++ [o])) in
+  load_from (c_osz c) recv (fil w) (loaded_hdr (bt w)) = LOk (with_lazy (bt w) (lazy recv)).
+Proof.
+  intros Hc Ha Hw Hr. cbv zeta.
+  destruct (mode_irrelevant_strip c (ops ++ [o])) as [A B].
+  rewrite B in Hr.
+  assert (G : load_from (c_osz c) recv (fil (fst (run (cfg_off c) (ops ++ [o]))))
+                (loaded_hdr (bt (fst (run (cfg_off c) (ops ++ [o])))))
+              = LOk (with_lazy (bt (fst (run (cfg_off c) (ops ++ [o])))) (lazy recv))).
+  { unfold run in *. rewrite run_from_snoc in *. cbn [fst snd] in *.
+    rewrite last_last in Hr.
+    unfold addr_ok in Ha. rewrite count_stores_app in Ha. cbn [count_stores] in Ha.
+    destruct (run_from_winv_next (cfg_off c) Hc eq_refl ops (init (cfg_off c))
+                (init_winv (cfg_off c) Hc eq_refl)) as [I Nx].
+    { unfold init. cbn [next]. change (ns_of (cfg_off c)) with (ns_of c). change (hsz (cfg_off c)) with (hsz c).
+      change (lim (cfg_off c)) with (lim c). lia. }
+    apply (step_image_off (cfg_off c) _ o recv Hc eq_refl I); [|exact Hw|exact Hr].
+    intro E. rewrite Nx. rewrite E in Ha. unfold init. cbn [next].
+    change (ns_of (cfg_off c)) with (ns_of c). change (hsz (cfg_off c)) with (hsz c).
+    change (lim (cfg_off c)) with (lim c). unfold hsz, hdr_size in *. lia. }
+  rewrite <- A in G. exact G.
+Qed.
+
+(* WriteToFile on the same object (no reload): the image at the returned header address *)
+Theorem image_after_store c ops recv : cfg_ok c -> addr_ok c (ops ++ [OStore]) ->
+  let w := fst (run c (ops ++ [OStore])) in
+  last (snd (run c (ops ++ [OStore]))) RErr = ROk
+  /\ exists s', load_from (c_osz c) recv (fil w) (next w - hsz c) = LOk s'
+       /\ recs s' = recs (bt w) /\ leaf_recs s' = recs (bt w) /\ header s' = header (bt w)
+       /\ node_size s' = node_size (bt w).
+Proof.
+  intros Hc Ha. cbv zeta.
+  destruct (mode_irrelevant_strip c (ops ++ [OStore])) as [A B]. rewrite B.
+  assert (G : last (snd (run (cfg_off c) (ops ++ [OStore]))) RErr = ROk
+     /\ exists s', load_from (c_osz c) recv (fil (fst (run (cfg_off c) (ops ++ [OStore]))))
+                     (next (fst (run (cfg_off c) (ops ++ [OStore]))) - hsz c) = LOk s'
+       /\ recs s' = recs (bt (fst (run (cfg_off c) (ops ++ [OStore]))))
+       /\ leaf_recs s' = recs (bt (fst (run (cfg_off c) (ops ++ [OStore]))))
+       /\ header s' = header (bt (fst (run (cfg_off c) (ops ++ [OStore]))))
+       /\ node_size s' = node_size (bt (fst (run (cfg_off c) (ops ++ [OStore]))))).
+  { unfold run. rewrite run_from_snoc. cbn [fst snd]. rewrite last_last.
+    unfold addr_ok in Ha. rewrite count_stores_app in Ha. cbn [count_stores is_store] in Ha.
+    destruct (run_from_winv_next (cfg_off c) Hc eq_refl ops (init (cfg_off c))
+                (init_winv (cfg_off c) Hc eq_refl)) as [I Nx].
+    { unfold init. cbn [next]. change (ns_of (cfg_off c)) with (ns_of c). change (hsz (cfg_off c)) with (hsz c).
+      change (lim (cfg_off c)) with (lim c). lia. }
+    set (w0 := fst (run_from (cfg_off c) (init (cfg_off c)) ops)) in *.
+    rewrite store_ok. cbn [fst snd fil next bt with_root recs header node_size]. split; [reflexivity|].
+    pose proof I as (W & Hn & _). destruct Hc as [Ho Hcap].
+    replace (next w0 + node_size (bt w0) + N.of_nat (hdr_size (c_osz (cfg_off c))) - hsz c)
+      with (next w0 + node_size (bt w0)) by (unfold hsz; cbn [cfg_off c_osz]; lia).
+    eexists. split.
+    - apply load_after_store; try assumption; [|lia].
+      unfold init in Nx. cbn [next] in Nx. change (ns_of (cfg_off c)) with (ns_of c) in Nx.
+      change (hsz (cfg_off c)) with (hsz c) in Nx. change (lim (cfg_off c)) with (lim c) in Nx.
+      unfold lim in *. unfold hsz, hdr_size in *. cbn [cfg_off c_osz] in *. lia.
+    - cbn [recs leaf_recs header node_size]. repeat split. }
+  rewrite <- A in G. exact G.
 Qed.
